@@ -35,15 +35,23 @@ Nodes == 1..st.n
 Quiet == Ok(st) /\ st.status = "idle"
 \* user-visible nodes (not lhs_change, not created inside binds)
 Visible == {n \in Nodes : st.def[n].k # "lhs" /\ st.scope[n] = 0 /\ n \in st.handles}
-IntNodes == {n \in Visible : (st.def[n].k \in {"var", "const", "map", "map2", "fold", "main", "mwo", "expert"}
-                                \/ (st.def[n].k = "mapref" /\ st.def[n].f \in {"fst", "snd"}))
-                             /\ ~(st.def[n].k = "var" /\ Tag(st.def[n].init) = "n")
-                             /\ ~(st.def[n].k = "map" /\ "ctl" \in DOMAIN st.def[n])
-                             /\ ~(st.def[n].k = "var" /\ Tag(st.def[n].init) = "p")
-                             /\ ~(st.def[n].k = "map" /\ st.def[n].f \in {"dup", "pair0", "halfp", "swap"})
-                             /\ ~(st.def[n].k = "map2" /\ st.def[n].f = "pair")
-                             /\ ~(st.def[n].k = "mwo" /\ st.def[n].f \in {"dup", "pair0", "halfp", "swap"})}
-PairNodes == {n \in Visible \ IntNodes : ~(st.def[n].k = "mapref" /\ st.def[n].f = "id" /\ st.def[n].ins[1] \in IntNodes)}
+\* does node n carry integers (as opposed to pairs / node handles / unit)?
+RECURSIVE IsInt(_)
+IsInt(n) ==
+  LET d == st.def[n] IN
+  CASE d.k = "var" -> Tag(d.init) = "i"
+    [] d.k = "const" -> Tag(d.init) = "i"
+    [] d.k = "map" -> ~("ctl" \in DOMAIN d) /\ d.f \notin {"dup", "pair0", "halfp", "swap"}
+                      /\ (d.f \in {"id", "inc"} => IsInt(d.ins[1]))
+    [] d.k = "map2" -> d.f # "pair"
+    [] d.k = "mwo" -> d.f \notin {"dup", "pair0", "halfp", "swap"} /\ (d.f \in {"id", "inc"} => IsInt(d.ins[1]))
+    [] d.k = "mapref" -> d.f \in {"fst", "snd"} \/ IsInt(d.ins[1])
+    [] d.k \in {"fold", "main", "expert"} -> TRUE
+    [] OTHER -> FALSE
+IntNodes == {n \in Visible : IsInt(n)}
+PairNodes == {n \in Visible \ IntNodes : st.def[n].k \in {"var", "map", "map2", "mapref", "mwo"}
+                                          /\ ~(st.def[n].k = "var" /\ Tag(st.def[n].init) # "p")
+                                          /\ ~(st.def[n].k = "map" /\ "ctl" \in DOMAIN st.def[n])}
 NumVars == Cardinality({n \in Nodes : st.def[n].k = "var"})
 Scripting == acts < Len(Prog)
 Creating == ~Scripting /\ st.n < MaxNodes /\ (Late \/ st.no = 0)
@@ -52,6 +60,7 @@ Creating == ~Scripting /\ st.n < MaxNodes /\ (Late \/ st.no = 0)
 ReadsOf(s) == [a |-> "expect",
                reads |-> [o \in 1..s.no |-> IF s.ostate[o] = "inuse" /\ ~ExactCone(s, s.onode[o])
                                              THEN <<"skip", "">> ELSE RefReadS(s, o)],
+               rtags |-> [o \in 1..s.no |-> ValueTag(s, o)],
                rets |-> s.retLog]
 \* (s is the result of the action applied to st; only what the action itself returned is kept)
 OnlyNewRets(s) == IF Ok(s) THEN [s EXCEPT !.retLog = SubSeq(@, Len(st.retLog) + 1, Len(@))] ELSE s
@@ -301,6 +310,7 @@ Expect(s) ==
   [a |-> "expect",
    reads |-> [o \in 1..s.no |-> IF s.ostate[o] = "inuse" /\ ~ExactCone(s, s.onode[o])
                                  THEN <<"skip", "">> ELSE RefReadS(s, o)],
+   rtags |-> [o \in 1..s.no |-> ValueTag(s, o)],
    inv |-> SortedInv(s),
    cone |-> LET c == coneB \cup ConeOf(s, ObservedNodes(s, LinkedObs(s)), {}) IN
             [n \in 1..s.n |-> n \in c],
@@ -317,6 +327,7 @@ Expect(s) ==
                         IN <<m>> \o Go(t \ {m})
            IN Go(d),
    released |-> [n \in 1..s.n |-> n \in Released(StabiliseFinish(s))],
+   stale |-> [n \in 1..s.n |-> s.scope[n] # 0 /\ s.born[n] < s.gen[s.scope[n]]],
    necessary |-> Cardinality({n \in 1..s.n : Alive(s, n) /\ Nec(s, n)}),
    memo |-> s.memoLog,
    cut |-> s.cutLog,
@@ -373,6 +384,8 @@ InvNoStaleRun == NoStaleRun(st)
 InvOnlyNeeded == OnlyNeeded(st, coneB)
 InvAudit == Audit(st)
 InvExactUpdates == ExactUpdates(st)
+\* diagnostic: which part of the audit fails (prints the failing parts)
+InvAuditParts == (Ok(st) /\ st.status = "idle" /\ AuditParts(st) # {}) => (PrintT(<<"AUDIT-PARTS", AuditParts(st)>>) /\ FALSE)
 InvHeightExact == HeightExact(st)
 
 \* behaviour export: one REPLAY line per maximal behaviour
@@ -389,10 +402,10 @@ NoProg == <<>>
 ProgCutReobs == <<[a |-> "var", v |-> I(1)], [a |-> "map", f |-> "min1", in |-> 1, eff |-> <<>>],
                   [a |-> "map", f |-> "id", in |-> 2, eff |-> <<>>]>>
 \* a bind whose lhs has another dependant, whose right-hand sides are an outer chain taller than
-\* its lhs_change node and a second var, with a plain map on top (K = 2)
-ProgBindTall == <<[a |-> "var", v |-> I(0)], [a |-> "var", v |-> I(0)], [a |-> "var", v |-> I(1)],
+\* its lhs_change node and a second var, with a plain map on top (K = 3)
+ProgBindTall == <<[a |-> "var", v |-> I(0)], [a |-> "var", v |-> I(0)], [a |-> "var", v |-> I(2)],
                   [a |-> "map", f |-> "id", in |-> 2, eff |-> <<>>], [a |-> "map", f |-> "id", in |-> 4, eff |-> <<>>],
-                  [a |-> "bind", in |-> 1, recipe |-> [r |-> "pick", alts |-> <<5, 3>>]],
+                  [a |-> "bind", in |-> 1, recipe |-> [r |-> "pick", alts |-> <<5, 3, 3>>]],
                   [a |-> "map", f |-> "id", in |-> 7, eff |-> <<>>],
                   [a |-> "map", f |-> "id", in |-> 1, eff |-> <<>>]>>
 \* a bind that switches to taller and taller right-hand sides under a map2 consumer (K = 3)
@@ -407,6 +420,22 @@ ProgRefCut == <<[a |-> "var", v |-> P(0, 0)], [a |-> "mapref", f |-> "fst", in |
 \* two vars, a map on the first that updates the second while stabilising (K = 2)
 ProgUpdateOther == <<[a |-> "var", v |-> I(0)], [a |-> "var", v |-> I(0)],
                      [a |-> "map", f |-> "id", in |-> 1, eff |-> <<[e |-> "set", v |-> 2, op |-> "update", x |-> NoVal]>>]>>
+
+\* a callback-maintained dynamic sum over a var that can be observed / unobserved separately (K = 3)
+ProgXSum == <<[a |-> "var", v |-> I(0)], [a |-> "var", v |-> I(1)], [a |-> "xsum", sel |-> 1, ins |-> <<2, 2>>]>>
+\* join over a Var<Incr> that can point at a plain var or at a map over it (K = 2)
+ProgXJoin == <<[a |-> "var", v |-> I(0)], [a |-> "map", f |-> "inc", in |-> 1, eff |-> <<>>],
+               [a |-> "var", v |-> NR(1)], [a |-> "xjoin", in |-> 3]>>
+
+\* a cell node (the per-key node of incr_mapi_) that a bind on ANOTHER var connects / disconnects,
+\* while its controlling node stays observed (K = 2): var m, cell over m, var w, bind w -> pick [cell, w]
+ProgXCell == <<[a |-> "var", v |-> I(0)], [a |-> "xcell", in |-> 1], [a |-> "var", v |-> I(0)],
+               [a |-> "bind", in |-> 4, recipe |-> [r |-> "pick", alts |-> <<2, 4>>]]>>
+
+\* two binds sharing one memoised builder (created at top level), keyed by their lhs values (K = 2)
+ProgMemo == <<[a |-> "var", v |-> I(0)], [a |-> "var", v |-> I(0)], [a |-> "memo_new", f |-> "const", over |-> 0],
+              [a |-> "bind", in |-> 1, recipe |-> [r |-> "memo", m |-> 1]],
+              [a |-> "bind", in |-> 2, recipe |-> [r |-> "memo", m |-> 1]]>>
 
 \* compact view of a state for counterexamples
 Alias == [status |-> st.status, panic |-> st.panic, num |-> st.num, chain |-> st.chain,
